@@ -202,14 +202,21 @@ def o_setp(a):
     return a
 
 
+LOWER = [False]
+
+
 def o_sub_ty(t, env):
-    """simultaneous textual substitution of the bound variables of t; env[i] = argument tree or None (kept)"""
+    """simultaneous textual substitution of the bound variables of t; env[i] = argument tree or None (kept).
+    A variable beyond the instantiated binders keeps pointing at the same outer binder: its index drops by
+    the number of removed binders (only when LOWER[0]; signatures must be closed)."""
     h = t[0]
     if h in ("num", "none", "evar"):
         return t
     if h == "bvar":
         i = int(t[2])
         if i >= len(env):
+            if LOWER[0]:
+                return ["bvar", t[1], str(i - len(env)), t[3], t[4]]
             raise NA
         e = env[i]
         if e is None:
@@ -253,6 +260,8 @@ def o_sub_const(c, env):
     if c[0] == "cbvar":
         i = int(c[3])
         if i >= len(env):
+            if LOWER[0] and o_closed_ty(c[1]):
+                return ["cbvar", c[1], c[2], str(i - len(env))]
             raise NA
         e = env[i]
         if e is None:
@@ -642,7 +651,7 @@ def _mk_cases(ctx):
         return any(x is None for x in a) and any(x is not None for x in a)
 
     # --- ip / ipip on sane input (oracle applies), plus error streams
-    n_sig = ctx.n(450, 22000)
+    n_sig = ctx.n(1500, 60000)
     for i in range(n_sig):
         stream = rng.random()
         f = G.signature()
@@ -658,7 +667,7 @@ def _mk_cases(ctx):
             a = a[:-1] if a and rng.random() < 0.5 else a + [None]
             tag = "wronglen"
         elif stream < 0.95:
-            a = G.partial(f.params, weird=0.3)
+            a = G.partial(f.params, weird=0.5)
             tag = "weird"
         else:
             a = G.partial(f.params, open_with=list(f.params))
@@ -683,23 +692,32 @@ def _mk_cases(ctx):
         add(["ipip", ft, at, [A(x) for x in b]], f"ipip:{tag}:{t2}", mixed(a))
 
     # --- raw Instantiator (real vs model; oracle on sane ones)
-    for i in range(ctx.n(500, 25000)):
+    for i in range(ctx.n(1500, 60000)):
         ps = X.TyGen(rng, []).gen_params(rng.choice([0, 1, 2, 3, 4]))
         extra = rng.random() < 0.15
         scope = ps + (X.TyGen(rng, []).gen_params(len(ps) + 2)[len(ps):] if extra else [])
         g = X.TyGen(rng, scope, kinded=rng.random() < 0.8, evars=rng.random() < 0.15)
-        t = g.gen(rng.choice([1, 2, 3]))
+        try:
+            t = g.gen(rng.choice([1, 2, 3]))
+        except _errs():
+            # TyGen(kinded=False) can trip over its own ill-kinded struct (`ty.copyable` in the func branch)
+            ctx.bump("gen-retry")
+            continue
         ap = rng.random() < 0.5
         sig = G.partial(ps, p_none=0.4 if ap or rng.random() < 0.1 else 0.0, flip=0.05,
                         weird=0.2 if rng.random() < 0.2 else 0.0, open_with=scope if rng.random() < 0.3 else None)
         if rng.random() < 0.5:
             add(["inst", "1" if ap else "0", [A(x) for x in sig], P(X.ty_sexp(t))], "inst:" + ("ap" if ap else "full"), mixed(sig))
         else:
-            arg = g.args_for([rng.choice(scope)] if scope else X.TyGen(rng, []).gen_params(1), 2)[0]
+            try:
+                arg = g.args_for([rng.choice(scope)] if scope else X.TyGen(rng, []).gen_params(1), 2)[0]
+            except _errs():
+                ctx.bump("gen-retry")
+                continue
             add(["insta", "1" if ap else "0", [A(x) for x in sig], A(arg)], "insta:" + ("ap" if ap else "full"), mixed(sig))
 
     # --- compile_variable_idx
-    for i in range(ctx.n(300, 6000)):
+    for i in range(ctx.n(600, 10000)):
         n = rng.choice([0, 1, 2, 3, 4, 5, 6, 8])
         ps = X.TyGen(rng, []).gen_params(n)
         mono = G.partial(ps, p_none=rng.choice([0.2, 0.5, 0.8]))
@@ -718,7 +736,7 @@ def _mk_cases(ctx):
     from guppylang_internals.tys import builtin as B
     from guppylang_internals.tys.arg import TypeArg
     from guppylang_internals.tys.param import ConstParam, TypeParam
-    for i in range(ctx.n(500, 25000)):
+    for i in range(ctx.n(1500, 60000)):
         n = rng.choice([0, 1, 2, 3, 3, 4, 4, 5, 6])
         ps = X.TyGen(rng, []).gen_params(n)
         pt = [P(X.param_sexp(p)) for p in ps]
@@ -738,8 +756,11 @@ def _mk_cases(ctx):
             cur = G.partial(qs, p_none=0.5)
             og = X.TyGen(rng, qs)
             args = []
+            ocs = [q for q in qs if isinstance(q, ConstParam)]
             for k, p in enumerate(ps):
-                if rng.random() < 0.5:
+                if isinstance(p, ConstParam) and ocs and rng.random() < 0.3:
+                    args.append(rng.choice(ocs).to_bound())      # an outer const variable as argument
+                elif rng.random() < 0.5:
                     args.append(og.args_for([p], 2)[0])
                 elif k in dep and rng.random() < 0.5:
                     args.append(TypeArg(B.nat_type()))
@@ -795,8 +816,11 @@ def oracle_of(req):
                     raise NA
                 if x is not None and x[0] == "ty" and x[1][0] == "func" and x[1][3]:
                     raise NA
-            # dangling indices are lowered, which plain substitution does not describe
-            r = o_sub_ty(req[3], sig) if k == "inst" else o_sub_arg(req[3], sig)
+            LOWER[0] = True
+            try:
+                r = o_sub_ty(req[3], sig) if k == "inst" else o_sub_arg(req[3], sig)
+            finally:
+                LOWER[0] = False
             return S(r)
         if k == "cvi":
             return o_cvi(int(req[1]), un(req[2]))
